@@ -124,6 +124,40 @@ def build (c : Ciphers) (kbpk : Bytes) (h : Header) (forms : List Nat) (padMode 
     let t := tag c ver kbak hdr [] enc
     hdr ++ hexOfBytes (!lower) enc ++ hexOfBytes (!lower) t
 
+/-- a pad block as another implementation may write it: `fill` any printable character, `form = 0` short length field,
+`form = k ≥ 1` extended form with a `k`-byte length field (legal for the pad block too), id in the given letter case;
+always present, minimal size plus `extra` cipher blocks -/
+def padBlockWith (bs bodyLen extra fill form : Nat) (id : PyStr) : PyStr :=
+  let overhead := if form = 0 then 4 else 6 + 2 * form
+  let n := (bs - (16 + bodyLen + overhead) % bs) % bs + extra * bs
+  if form = 0 then id ++ natHex 2 (4 + n) ++ List.replicate n fill
+  else id ++ [48, 48] ++ natHex 2 form ++ natHex (2 * form) (n + 6 + 2 * form) ++ List.replicate n fill
+
+/-- `build` with a foreign-looking pad block (see `padBlockWith`); used by the correspondence streams only — the theorems speak
+of `build` -/
+def buildForeignPad (c : Ciphers) (kbpk : Bytes) (h : Header) (forms : List Nat) (extra fill form : Nat) (padId : PyStr)
+    (key pad : Bytes) (lower : Bool) : PyStr :=
+  let ver := h.versionId.headD 0
+  let bs := bsOf ver
+  let ml := macLenOf ver
+  let body := encodeBlocks h.blocks forms
+  let opt := body ++ padBlockWith bs body.length extra fill form padId
+  let clear := [hi (8 * key.length), lo (8 * key.length)] ++ key ++ pad
+  let total := 16 + opt.length + 2 * clear.length + 2 * ml
+  let hdr := h.versionId ++ dec4 total ++ h.keyUsage ++ h.algorithm ++ h.modeOfUse ++ h.versionNum ++
+    h.exportability ++ dec2 (h.blocks.length + 1) ++ h.reserved ++ opt
+  let (kbek, kbak) := deriveKeys c ver kbpk
+  let blocks := splitBlocks bs clear.length clear
+  if ver = 66 ∨ ver = 68 then
+    let E := if ver = 68 then c.aesE kbek else c.tdesE kbek
+    let t := tag c ver kbak hdr clear []
+    let enc := (cbcEnc E t blocks).flatten
+    hdr ++ hexOfBytes (!lower) enc ++ hexOfBytes (!lower) t
+  else
+    let enc := (cbcEnc (c.tdesE kbek) ((asciiBytes hdr).take 8) blocks).flatten
+    let t := tag c ver kbak hdr [] enc
+    hdr ++ hexOfBytes (!lower) enc ++ hexOfBytes (!lower) t
+
 /-- `build` with the clear key data given as raw bytes (so that a holder of the KBPK can produce authentic blocks whose
 length prefix is wrong in every possible way — used only by the correspondence streams that exercise the rejection paths
 behind the MAC check) -/
